@@ -176,6 +176,10 @@ class PrefixExpression(Expression):
         super().__init__(token)
 
     def __str__(self) -> str:
+        if isinstance(self.right, (ComparisonExpression, PrefixExpression)):
+            # `!` binds more tightly than a comparison operator, and `!!` is
+            # not valid syntax.
+            return f"{self.operator}({self.right})"
         return f"{self.operator}{self.right}"
 
     def __eq__(self, other: object) -> bool:
